@@ -155,8 +155,25 @@ def observe(root, rng: random.Random, *, mutants: bool = True, only_flatten: boo
         for _ in range(3):
             m = build(rec["tree"], type(root))
             target = ([m] + list(m))[rng.randrange(len(nodes))]
-            f = rng.randrange(8)
-            if f == 6:     # structure: a node loses its last child (deep nodes preferred)
+            f = rng.randrange(10)
+            if f >= 8:     # structure: same nodes in the same pre-order, another shape (a last child becomes the next sibling, or the reverse)
+                pairs = [(par, x) for par in [m] + list(m) for x in par.children if x.children]
+                sibs = [(par, i) for par in [m] + list(m) for i in range(len(par.children) - 1) if not par.children[i].children]
+                if pairs and (f == 8 or not sibs):
+                    par, x = pairs[rng.randrange(len(pairs))]
+                    if not x.children[-1].children:      # (keeps the pre-order: the moved node is the last one of x's sub-tree)
+                        moved = x.children.pop()
+                        moved.parent = par
+                        par.children.insert(par.children.index(x) + 1, moved)
+                elif sibs:
+                    par, i = sibs[rng.randrange(len(sibs))]
+                    moved = par.children.pop(i + 1)
+                    if not moved.children:
+                        moved.parent = par.children[i]
+                        par.children[i].children.append(moved)
+                    else:
+                        par.children.insert(i + 1, moved)
+            elif f == 6:     # structure: a node loses its last child (deep nodes preferred)
                 cands = [x for x in [m] + list(m) if x.children]
                 if cands:
                     cands[-1 if rng.random() < 0.6 else rng.randrange(len(cands))].children.pop()
